@@ -103,10 +103,41 @@ func normalize(n *Node) *Node {
 
 func quote(s string) string { return "'" + s + "'" }
 
-// render produces the SQL text of the tree.
-func render(n *Node) string {
+// render produces the SQL text of the tree (upper-case keywords).
+func render(n *Node) string { return renderStyle(n, false) }
+
+// renderStyle: lower=true writes and / or / not in lower case (SQL keywords are case-insensitive).
+func renderStyle(n *Node, lower bool) string {
 	var sb strings.Builder
 	renderTo(&sb, n)
+	out := sb.String()
+	if lower {
+		out = lowerLogic(out)
+	}
+	return out
+}
+
+// lowerLogic lower-cases AND / OR / NOT outside string literals.
+func lowerLogic(s string) string {
+	var sb strings.Builder
+	inq := false
+	for i := 0; i < len(s); i++ {
+		ch := s[i]
+		if ch == '\'' {
+			inq = !inq
+		}
+		if !inq {
+			for _, kw := range []string{" AND ", " OR ", "NOT "} {
+				if strings.HasPrefix(s[i:], kw) && (kw[0] == ' ' || i == 0 || s[i-1] == ' ' || s[i-1] == '(') {
+					sb.WriteString(strings.ToLower(kw))
+					i += len(kw) - 1
+					goto next
+				}
+			}
+		}
+		sb.WriteByte(ch)
+	next:
+	}
 	return sb.String()
 }
 
